@@ -70,8 +70,8 @@ def build():
                                 r"&\(account\.get_endpoint\(endpoint_name\)\?\.account_url\),\s*(?P<data>[^,]+),\s*url,\s*n,?\s*\)", builder_rw, None),
                   ("T-FMT", r"format!\(\s*\"\{\}: authorization status is \{\}\",\s*auth\.identifier, auth\.status\s*\)", "crate::opaque_string()"),
                   ("T-JSON", r"json!\(\{\s*\"csr\": csr\.to_der_base64\(\)\?,\s*\}\)", 'crate::shims::json_csr(csr.to_der_base64()?)'),
-                  ("T-ITER", r"cert\s*\.identifiers\s*\.iter\(\)\s*\.filter\(\|e\| e\.id_type == IdentifierType::(?P<t>Dns|Ip)\)\s*\.map\(\|e\| e\.value\.to_owned\(\)\)\s*\.collect\(\)",
-                   lambda m: "crate::shims::values_of_type(&cert.identifiers, IdentifierType::" + m.group("t") + ")", 2),
+                  ("T-ITER", r"(?P<src>cert|order)\s*\.identifiers\s*\.iter\(\)\s*\.filter\(\|(?P<e>\w+)\| (?P=e)\.id_type == IdentifierType::(?P<t>Dns|Ip)\)\s*\.map\(\|(?P<f>\w+)\| (?P=f)\.value\.(?:to_owned|clone|to_string)\(\)\)\s*\.collect\(\)",
+                   lambda m: ("crate::shims::values_of_type(&cert.identifiers, IdentifierType::" if m.group("src") == "cert" else "crate::shims::order_values_of_type(&order.identifiers, IdentifierType::") + m.group("t") + ")", 2),
                   ("T-ITER", r"for \(data, hook_type\) in hook_datas\.iter\(\)", "for (data, hook_type) in it4: hook_datas.iter()"),
                   # T-CLOSURE: a pure predicate closure gets `ensures result == its own body`
                   ("T-CLOSURE", r"let break_fn = \|(?P<p>\w+): &(?P<t>\w+)\| (?P<body>[^;{}]+);",
